@@ -192,6 +192,14 @@ def r6_one_slot_at_a_time(ctx):
                    "`%s` pops the next thread-local slot before the previously popped value has been dropped: slots are marked destroyed before "
                    "their destructor's turn, so a destructor sees later-initialised thread-locals as already destroyed" % b.nkey, loc=b.loc(p))
     ctx.floor("C07.R6", "loops that pop thread-local / per-execution storage", n, 2)
+    # the loop discipline above can only be seen where the loop is in this workspace's code; a pop handed to a library iterator
+    # (`iter::from_fn(|| pop()).collect()`) drains every slot out of sight.  So the set of functions that pop is closed:
+    callers = {kinds.root_fn(prog, k) for p in POPS for k in kinds.callers(prog, p, passed=True)}
+    kinds.check_who_may(ctx, "C07.R6", "function popping thread-local / per-execution storage", callers,
+                        {T + "Task::pop_local": "one-slot accessor used by the two destructor loops",
+                         "shuttle_engine::thread_support::thread_fn": "destructor loop of threads (checked above)",
+                         "shuttle_std::future::Wrapper::finish": "destructor loop of futures (checked above)",
+                         ES + "cleanup": "drains the per-execution storage at the end of an execution (checked above)"})
 
 
 RULES = [("C07.R1", r1_thread_fn_order), ("C07.R2", r2_join), ("C07.R3", r3_storage), ("C07.R4", r4_scope), ("C07.R5", r5_ids), ("C07.R6", r6_one_slot_at_a_time)]
